@@ -194,7 +194,10 @@ def check_templates(fx, rep):
         name_var, ty_var, rest = mt.group(1), mt.group(2), mt.group(3)
         name_src = lets.get(name_var, '')
         ty_src = lets.get(ty_var, '')
-        ok_name = 'to_string' in name_src and 'unraw' in name_src
+        # the identifier string as it is: unraw() + to_string() and nothing after that (a trimmed / replaced / re-cased name is not a member of the Rust type)
+        NAME_EDIT = re.compile(r'\.\s*(trim\w*|strip_\w+|replace\w*|to_(ascii_)?(lower|upper)case|to_snake_case|to_\w+_case|split\w*|chars|rsplit\w*|truncate|pop|drain|get|trim_end_matches|trim_start_matches)\s*\(')
+        edits = NAME_EDIT.findall(name_src)
+        ok_name = 'to_string' in name_src and 'unraw' in name_src and not edits
         ok_ty = 'remove_lifetimes_from_type' in ty_src
         cvars = re.findall(r'#\s*(\w+)', rest)
 
@@ -205,7 +208,7 @@ def check_templates(fx, rep):
             return depth < 3 and any(from_docs(w, depth + 1) for w in re.findall(r'[A-Za-z_]\w*', src) if w in lets and w != v)
         ok_doc = any(from_docs(v) for v in cvars)
         rep.check(ok_name, 'R16.2', 'field-template|name', '%s:%s' % (f, n.get('line')), 'a field is described under the string of its (unraw\'d) identifier',
-                  'the field-description template does not use the identifier string of the field as its name (source: %s)' % name_src)
+                  'the field-description template does not use the identifier string of the field as it is (source: %s%s)' % (name_src, '; the string is edited afterwards' if edits else ''))
         rep.check(ok_ty, 'R16.2', 'field-template|type', '%s:%s' % (f, n.get('line')), 'the type slot is <FieldTy as Type>::TYPE after lifetime erasure',
                   'the field-description template does not describe the field type as `<FieldTy as Type>::TYPE` of the declared type')
         rep.check(ok_doc, 'R16.2', 'field-template|comments', '%s:%s' % (f, n.get('line')), 'doc comments of the field become its comments', 'doc comments are not carried into the field description')
@@ -313,6 +316,14 @@ def check(fx, rep, tier):
     n4 = 0
     for fn, n, impl in A.all_fns(fx.tpl, 'zlink-macros/src'):
         body_nodes = list(A.nodes(n.get('body') or []))
+        # private helpers of the same file that the collector hands the text to (`push_doc_lines(&mut out, lit.value())`) are part of it
+        same_file = {it2['name']: it2 for fn2, it2, im2 in A.all_fns(fx.tpl, 'zlink-macros/src') if fn2 == fn and it2 is not n}
+        called = {re.sub(r'.*::', '', (x.get('func') if isinstance(x.get('func'), str) else A.text(x.get('func')) or '')).strip() for x in body_nodes if x.get('k') == 'call'}
+        called |= {re.sub(r'.*::', '', A.text(a)).strip() for x in body_nodes if x.get('k') == 'mcall' for a in (x.get('args') or []) if isinstance(a, dict) and a.get('k') == 'path'}
+        helper_nodes = []
+        for nm_ in called:
+            if nm_ in same_file:
+                helper_nodes += list(A.nodes(same_file[nm_].get('body') or []))
         is_doc = any(x.get('k') == 'mcall' and x.get('method') == 'is_ident' and any(a.get('k') == 'str' and a.get('value') == 'doc' for a in x.get('args') or []) for x in body_nodes)
         if not is_doc or 'Attribute' not in (n.get('sig') or ''):
             continue
@@ -334,6 +345,9 @@ def check(fx, rep, tier):
         RESHAPE = ('lines', 'split', 'splitn', 'rsplit', 'split_whitespace', 'split_terminator', 'split_once', 'chars', 'char_indices', 'bytes', 'filter', 'is_empty',
                    'retain', 'strip_prefix', 'strip_suffix', 'trim_matches', 'trim_start_matches', 'trim_end_matches', 'replace', 'get', 'find', 'truncate', 'pop', 'len')
         reshaped = []
+        for x in helper_nodes:
+            if x.get('k') == 'mcall' and x.get('method') in ('lines', 'split', 'splitn', 'split_terminator', 'split_whitespace', 'filter', 'retain', 'replace', 'truncate'):
+                reshaped.append('%s() in a helper, line %s' % (x.get('method'), x.get('line')))
         for x in body_nodes:
             if x.get('k') == 'mcall' and x.get('method') in RESHAPE:
                 rn = list(A.nodes(x.get('recv')))
